@@ -189,17 +189,17 @@ C11H = ["resolve/c11_inbound.go"]
 
 def c11(n, cancel, fail, preempt, timeout=1800):
     return spec("H-C11a[%d,%d,%d|p%s]" % (n, cancel, fail, preempt), "./pkg/engine/resolve", C11H, "VerifC11Inbound", [n, cancel, fail],
-                "%d concurrent requests through the real ArenaResolveGraphQLResponse (inbound single-flight, loader, resolvable) with a stub data source; request ids symbolic (solver decides sharing)%s%s; every interleaving at visible operations (sync.Map, atomics, channels, mutexes, in-flight fetch) with at most %s preemptive switches" % (n, ", request 0's context cancelled at a symbolic point" if cancel else "", (", upstream failure symbolic" if fail & 1 else "") + (", client 0's writer may be broken" if fail & 2 else "") + (", forwarded header set symbolic per request" if fail & 4 else ""), preempt),
+                "%d concurrent requests through the real ArenaResolveGraphQLResponse (inbound single-flight, loader, resolvable) with a stub data source; request ids symbolic (solver decides sharing)%s%s; every interleaving at visible operations (sync.Map, atomics, channels, mutexes, in-flight fetch) with at most %s preemptive switches" % (n, ", request 0's context cancelled at a symbolic point" if cancel else "", (", upstream failure symbolic" if fail & 1 else "") + (", client 0's writer may be broken" if fail & 2 else "") + (", forwarded header set symbolic per request" if fail & 4 else "") + (", every request has its own inbound key (sharing only through the subgraph-request single flight)" if fail & 8 else ""), preempt),
                 ["all returned", "work was shared"], timeout=timeout, preempt=preempt)
 
 PROPS["C11"] = dict(
     title="Request de-duplication is transparent and never wedges or crashes",
     level_text="bounded model checking of the real resolver code under an engine scheduler: goroutines are interpreted from go/ssa, every visible synchronisation operation is a possible context switch, the schedule is a decision variable explored exhaustively within the preemption bound while request data stays symbolic; panics (double close), deadlocks and wrong outputs are violations, replayed natively by forcing the counterexample's preemptions with gates inserted into an overlay copy of the source",
-    level_note="bounds: number of requests, preemption bound (CHESS-style), one fetch per request; A-DRF: plain accesses between visible operations are not interleaved; subgraph-level single-flight and the ws dial coalescing are not covered yet; trusted base: gosym scheduler and primitives models (sync, atomic, channels, context), z3",
+    level_note="bounds: number of requests, preemption bound (CHESS-style), one fetch per request; A-DRF: plain accesses between visible operations are not interleaved; the subgraph-request single flight is covered through the same entry point (H-C11a[3,1,8]: distinct inbound keys); the ws dial coalescing is not covered; trusted base: gosym scheduler and primitives models (sync, atomic, channels, context), z3",
     design_ref="DESIGN.md §4 C11",
     assumptions=["A-DRF (data-race freedom between visible operations)", "stub DataSource.Load yields once while the request is in flight and returns the caller's context error if cancelled by then"],
     stubs=["sync.Map, sync.Mutex/RWMutex/WaitGroup, sync/atomic, channels/select, sync.Pool (always New), go-arena Pool (no arena)", "context.WithValue modelled; rest of context interpreted"],
-    quick=[c11(2, 0, 0, 2), c11(2, 0, 1, 2), c11(2, 1, 0, 2), c11(2, 0, 6, 2)],
+    quick=[c11(2, 0, 0, 2), c11(2, 0, 1, 2), c11(2, 1, 0, 2), c11(2, 0, 6, 2), c11(3, 1, 8, 1)],
     thorough=[c11(2, 0, 1, 3), c11(2, 1, 1, 2, 3000), c11(3, 0, 0, 2, 3000)],
 )
 
